@@ -73,17 +73,16 @@ impl Vm {
     self.gc.replace(gc);
 
     result.map(|fun| {
-      if module.id() < self.inline_cache.len() {
-        self.inline_cache[module.id()].grow(
-          cache_id_emitter.property_count(),
-          cache_id_emitter.invoke_count(),
-        );
-      } else {
-        self.inline_cache.push(InlineCache::new(
-          cache_id_emitter.property_count(),
-          cache_id_emitter.invoke_count(),
-        ));
+      // caches are addressed by module id. Ids are also taken by modules
+      // that failed to compile and never got a cache
+      while self.inline_cache.len() <= module.id() {
+        self.inline_cache.push(InlineCache::new(0, 0));
       }
+
+      self.inline_cache[module.id()].grow(
+        cache_id_emitter.property_count(),
+        cache_id_emitter.invoke_count(),
+      );
       self.manage_obj(fun)
     })
   }
